@@ -92,6 +92,17 @@ def cases(ctx, tier):
         e = max(2, e)
         out.append(('mpz_powm %s %s %s 0' % (hx(b * rng.choice([1, -1])), hx(e), hx(m)), 'powm-even-valuation'))
         out.append(('mpz_powm_ui %s %x %s 0' % (hx(b), e, hx(m)), 'powm_ui-even-valuation'))
+    # moduli next to a power of the limb base, bases next to the modulus or to B^(n-1) (fewer limbs than the modulus), of either
+    # sign, exponents 1, 2, 3: m - |b| then has several zero high limbs (the e = 1 shortcut subtracts without dividing)
+    for _ in range(400 if quick else 4000):
+        k = rng.randrange(1, 5)
+        m = (1 << (64 * k)) + rng.choice([0, 0, 1, 1, 2, 3, rng.getrandbits(10), rng.getrandbits(64), -1, -2, -rng.getrandbits(10) - 1])
+        d = rng.choice([0, 1, 1, 2, 3, rng.getrandbits(10), rng.getrandbits(64), rng.getrandbits(64 * rng.randrange(1, k + 1))])
+        b = rng.choice([m - d, (1 << (64 * k)) - d, (1 << (64 * k)) - 1 - d, (1 << (64 * rng.randrange(1, k + 1))) - d])
+        b = max(0, b) * rng.choice([1, -1, -1])
+        e = rng.choice([1, 1, 1, 2, 3, rng.getrandbits(7)])
+        out.append(('mpz_powm %s %s %s %d' % (hx(b), hx(e), hx(m * rng.choice([1, 1, -1])), rng.choice([0, 0, 1, 2, 3])), 'powm-near-modulus'))
+        out.append(('mpz_powm_ui %s %x %s %d' % (hx(b), e, hx(m), rng.choice([0, 0, 1, 3])), 'powm_ui-near-modulus'))
     out.append(('mpz_powm 5 3 0 0', 'powm-zero-modulus'))
     out.append(('mpz_powm 2 -1 8 0', 'powm-no-inverse'))
     out.append(('mpz_powm 6 -5 9 0', 'powm-no-inverse'))
